@@ -38,8 +38,23 @@ Oracle (independent re-computation; centroid by math.fsum, radii by hypot, all-p
   1e-9 of the largest over the sub-pixels of that pixel (ties accepted); sub_border_grid / border_grid are the
   corresponding coordinates.
 
-Validated against (tools/mutant.py; quick tier unless noted; suite = repository suite stays green):
-  see the list at the end of this docstring, filled in from the validation runs.
+Validated against (tools/mutant.py; every break marked caught makes the quick tier print VIOLATION):
+  repository suite stays green (699/699), i.e. only this check sees them
+    - caught  `move_factor < 1.0` -> `<= 1.0` (border points / points on a border point are rewritten with rounding)
+    - caught  `move_factor < 1.0` -> `!= 1.0` (points pushed outward to their nearest border radius)
+    - caught  `border_min_radii = np.max(...)` (nothing inside the largest border radius is moved; non-circular borders)
+    - caught  centre of the sub-border search = mean of the sub-grid instead of the bounding-box centre (asymmetric masks)
+    - caught  Rectangular.mapper_grids_from hands the un-relocated data grid to MapperGrids
+    - equivalent, not detectable: `grid_radii > border_min_radii` -> `>=` (a point exactly at the minimum radius has a
+      nearest border radius >= its own, so the move factor is >= 1 and the output is identical)
+  breaks that the repository suite also notices (1..11 baseline tests fail), caught here as well
+    - move factor applied about the origin instead of the centroid
+    - nearest border point chosen by radius instead of by distance
+    - x term of the nearest-point distance taken from the border's y column
+    - centroid y taken from the whole grid instead of the border
+    - `<=` / `>` instead of `>=` in furthest_grid_2d_slim_index_from (UnboundLocalError for a pixel at the centre)
+    - relocated_grid_from uses border_slim instead of sub_border_slim (sub size > 1 only)
+    - Delaunay.mapper_grids_from passes the un-relocated mesh vertices on
 """
 import math
 
@@ -91,7 +106,7 @@ def plan(tier, seed):
         total = (1 << (H * W)) - 1
         for s in range(0, total, 256):
             e = min(total, s + 256)
-            units.append({"kind": "subenum", "H": H, "W": W, "start": s, "stop": e, "w": (e - s) * 6 * (1.0 + 0.25 * H * W)})
+            units.append({"kind": "subenum", "H": H, "W": W, "start": s, "stop": e, "w": (e - s) * 6 * (2.3 + 0.6 * H * W)})
     return units
 
 
